@@ -576,8 +576,8 @@ type reqSpace struct {
 	n        int
 	dirs     []string
 	wktMasks []int
-	targets  []int // bitmasks; nil = all non-empty subsets
-	filters  bool
+	targets   []int        // bitmasks; nil = all non-empty subsets
+	filterWkt map[int]bool // WKT masks for which the per-plugin type filters are explored too
 }
 
 func allMasks(n int) []int {
@@ -622,7 +622,7 @@ func runRequests(r *evid.Run, spaces []reqSpace) {
 				}
 			}
 		}
-		r.Set(fmt.Sprintf("A_space_n%d", sp.n), map[string]any{"dags": len(dags), "dirs": sp.dirs, "layouts": len(ls), "wkt_masks": len(sp.wktMasks), "filters": sp.filters})
+		r.Set(fmt.Sprintf("A_space_%d_n%d", si, sp.n), map[string]any{"dags": len(dags), "dirs": sp.dirs, "layouts": len(ls), "wkt_masks": sp.wktMasks, "type_filters_for_wkt_masks": len(sp.filterWkt)})
 	}
 	r.Set("A_images_planned", len(items))
 	total := &ReqStats{}
@@ -717,7 +717,7 @@ func runRequests(r *evid.Run, spaces []reqSpace) {
 			for _, cfg := range reqConfigs {
 				evalOne(m, image, tmask, cfg)
 			}
-			if it.sp.filters && tmask == 1<<c.N-1 {
+			if it.sp.filterWkt[it.wkt] && tmask == 1<<c.N-1 {
 				for k := 0; k < c.N; k++ {
 					for _, cfg := range reqConfigs {
 						if cfg.IncludeWKT != cfg.IncludeImports {
